@@ -20,19 +20,20 @@ for ln in (src / 'FIXES.txt').read_text().splitlines():
         d, subj = [x.strip() for x in ln.split('|', 1)]
         fixes.append((d, subj))
 commits = {}
+orig = subprocess.run(['git', '-C', '/repo', 'rev-parse', 'HEAD'], capture_output=True, text=True).stdout.strip()
+skip = set(sys.argv[2:])      # diff stems already committed by another group
 for d, subj in fixes:
+    if Path(d).stem in skip:
+        print('skipped (already committed):', d)
+        continue
     diff = src / d
     if not diff.exists():
         diff = V / d
-    chk = subprocess.run(['git', '-C', '/repo', 'apply', '--check', str(diff)], capture_output=True, text=True)
-    if chk.returncode != 0:
-        print('DOES NOT APPLY:', d, chk.stderr[:400])
+    ap = subprocess.run(['git', '-C', '/repo', 'apply', str(diff)], capture_output=True, text=True)
+    if ap.returncode != 0:
+        print('DOES NOT APPLY:', d, ap.stderr[:400])
+        subprocess.run(['git', '-C', '/repo', 'reset', '-q', '--hard', orig], check=True)
         sys.exit(1)
-for d, subj in fixes:
-    diff = src / d
-    if not diff.exists():
-        diff = V / d
-    subprocess.run(['git', '-C', '/repo', 'apply', str(diff)], check=True)
     if not subj.startswith('fix:'):
         subj = 'fix: ' + subj
     subprocess.run(['git', '-C', '/repo', 'commit', '-qam', subj], check=True)
